@@ -133,6 +133,20 @@ func (p *Prog) File(pos token.Pos) string {
 }
 
 // FuncName gives a stable, human name: "(*T).M", "f", "f$1".
+// typeAliases: today's name of a renamed type -> the name the rules know it by (see anchors.go).
+var typeAliases = map[string]string{}
+
+// KnownTypeName: the name of a named type as the rules know it (a renamed type keeps its old name).
+func KnownTypeName(n *types.Named) string {
+	if n == nil {
+		return ""
+	}
+	if a, ok := typeAliases[n.Obj().Name()]; ok {
+		return a
+	}
+	return n.Obj().Name()
+}
+
 func FuncName(f *ssa.Function) string {
 	if f == nil {
 		return "<nil>"
